@@ -387,3 +387,21 @@ Proof.
     try (apply canonicalb_spec; vm_compute; reflexivity);
     try (intros C; apply canonicalb_spec in C; vm_compute in C; discriminate).
 Qed.
+
+(* ---- the caller's object survives the expansion (entry ExpandObject, DC10.d_expand_object): the run-time entry expands ONE parsed object,
+   reads it back and expands it again; it accepts the observation only if both results are accepted as the plain expansion of the argument
+   string and the object read back in between is accepted as the plain parse/print of it (so: same ID(), same accessors, same FieldParams,
+   and the second call returns the same voxels). Any other observed shape (error, refused size) is judged by the plain entry. ---- *)
+From SID Require Wire DC10.
+Theorem C10_expand_object_entry_accepts_only_unchanged_objects : forall s l1 id acc fp l2,
+  Wire.v_prop (DC10.d_expand_object [Wire.VS s] (Wire.VL [Wire.VL l1; Wire.VL [Wire.VS id; acc; fp]; Wire.VL l2])) = true ->
+  Wire.v_prop (DC10.d_expand [Wire.VS s] (Wire.VL l1)) = true /\
+  Wire.v_prop (DC10.d_parseprint [Wire.VS s] (Wire.VL [Wire.VS id; acc; fp])) = true /\
+  Wire.v_prop (DC10.d_expand [Wire.VS s] (Wire.VL l2)) = true.
+Proof. exact DC10.expand_object_accepts_only_unchanged_objects. Qed.
+Print Assumptions C10_expand_object_entry_accepts_only_unchanged_objects.
+Theorem C10_expand_object_entry_other_shapes_are_the_plain_entry : forall s obs,
+  (forall l1 id acc fp l2, obs <> Wire.VL [Wire.VL l1; Wire.VL [Wire.VS id; acc; fp]; Wire.VL l2]) ->
+  DC10.d_expand_object [Wire.VS s] obs = DC10.d_expand [Wire.VS s] obs.
+Proof. exact DC10.expand_object_other_shapes. Qed.
+Print Assumptions C10_expand_object_entry_other_shapes_are_the_plain_entry.
